@@ -129,6 +129,9 @@ SPECS["C01"] = dict(
                 budget={"quick": 60, "thorough": 900}),
            dict(name="doh-replies", pkg="internal/upstream", run="TestVerifC01DoH", go="go", engines=("report", "refdns", "env", "sched", "choice"), shards=1, gomaxprocs=4,
                 files={"harness/upstream/zz_verif_c01doh_test.go": "internal/upstream/zz_verif_c01doh_test.go"}, budget={"quick": 120, "thorough": 120}),
+           dict(name="udp-fallback", pkg="internal/upstream", run="TestVerifC16", go="go1.26", env=E3ENV, gomaxprocs=1, engines=E3ENGINES, shards=4,
+                files=dict(UPSTREAM_COMMON, **{"harness/upstream/zz_verif_c16_test.go": "internal/upstream/zz_verif_c16_test.go"}),
+                budget={"quick": 60, "thorough": 300}),
            router_part("listeners", "TestVerifC01Listeners", ["zz_verif_c01_test.go", "zz_verif_c03_test.go"], shards=1, gomaxprocs=8, budget={"quick": 300, "thorough": 300})],
 )
 
@@ -176,7 +179,9 @@ SPECS["C06"] = dict(
                 budget={"quick": 60, "thorough": 600}),
            dict(name="udp-fallback", pkg="internal/upstream", run="TestVerifC16", go="go1.26", env=E3ENV, gomaxprocs=1, engines=E3ENGINES, shards=4,
                 files=dict(UPSTREAM_COMMON, **{"harness/upstream/zz_verif_c16_test.go": "internal/upstream/zz_verif_c16_test.go"}),
-                budget={"quick": 60, "thorough": 300})],
+                budget={"quick": 60, "thorough": 300}),
+           dict(name="real-fallback", pkg="internal/upstream", run="TestVerifC06Real", go="go", engines=("report", "refdns", "env", "sched", "choice"), shards=1, gomaxprocs=4,
+                files={"harness/upstream/zz_verif_c06real_test.go": "internal/upstream/zz_verif_c06real_test.go"}, budget={"quick": 60, "thorough": 60})],
 )
 
 SPECS["C14"] = dict(
@@ -278,6 +283,11 @@ SPECS["C10"] = dict(
     parts=[router_part("rules", "TestVerifC10", ["zz_verif_c10_test.go"], params={"quick": {"MAXLEN": 2}, "thorough": {"MAXLEN": 3}}),
            dict(name="config", pkg="app/router", run="TestVerifC10Config", go="go", engines=("choice", "report"), shards=1,
                 files={"harness/router/zz_verif_c10cfg_test.go": "app/router/zz_verif_c10cfg_test.go"}, budget={"quick": 120, "thorough": 120}),
+           router_part("concurrent-queries", "TestVerifC04", ["zz_verif_c04_test.go", "zz_verif_c03_test.go", "zz_verif_c19_test.go", "zz_verif_c07_test.go", "zz_verif_c08_test.go"],
+                       params={"quick": {"DEPTH": 4, "LONGSTEPS": 0}, "thorough": {"DEPTH": 5, "LONGSTEPS": 0}}),
+           dict(name="domain-condition-concurrent", pkg="internal/domain_matcher", run="TestVerifC11Concurrent", race=True, shards=1, gomaxprocs=4,
+                files={"harness/C11/zz_verif_c11_test.go": "internal/domain_matcher/zz_verif_c11_test.go"},
+                params={"quick": {"ROUNDS": 200}, "thorough": {"ROUNDS": 2000}}),
            dict(name="domain-condition", pkg="internal/domain_matcher", run="TestVerifC11",
                 files={"harness/C11/zz_verif_c11_test.go": "internal/domain_matcher/zz_verif_c11_test.go"},
                 params={"quick": {"MAXLEN": 2, "VARIANTS": 2}, "thorough": {"MAXLEN": 3, "VARIANTS": 2}})],
